@@ -113,6 +113,8 @@ PROPS["C09"] = {
         # zero-length messages over an io.Pipe, then a quiet peer
         {"name": "C09EmptyMessage", "pkg": INT, "test": "TestVerifC09EmptyMessage", "kind": "enum"},
         # the runner's reader of a client's output: the client answers k requests, takes the next one and stalls
+        # the limit on a client's answers is 16 MiB (not the 1 MiB of a server's start response), sharp, and named when exceeded
+        {"name": "C09ClientResponseSize", "pkg": CC, "test": "TestVerifC09ClientResponseSize", "kind": "enum", "timeout": 300},
         {"name": "C09ClientStall", "pkg": CC, "test": "TestVerifC09ClientStall", "kind": "enum", "timeout": {"quick": 240, "thorough": 240}},
         {"name": "C09Fuzz", "pkg": INT, "test": "FuzzVerifC09Stream", "kind": "fuzz", "fuzz_target": "FuzzVerifC09Stream",
          "only_tiers": ["thorough"], "fuzztime": {"thorough": "60s"}, "workers": 16, "timeout": {"thorough": 600}},
@@ -157,6 +159,7 @@ PROPS["C18"] = {
 COMP = "internal/compression"
 
 PROPS["C20"] = {
+    "with": ["C14", "C15"],  # the body-tracing driver and oracle of the C14 harness (which borrows the C15 exchange driver)
     "level": "exploration",
     "rule": ("histories of pool-style use of ONE compressor and ONE decompressor instance per encoding (Reset/Write*/Close/Reset(io.Discard); Reset/ReadAll/Close/Reset(NoBody); instance discarded when Reset or Close fails, exactly as connect-go's pool does): "
              "operations compress, roundtrip, decode of a valid independently-encoded stream, decode of a bit-flipped / truncated / empty stream; data empty, 1 byte, text, incompressible, >64 KiB; oracle: every compressor output is decoded to the input by the stdlib/third-party decoder of that name called directly, "
@@ -182,6 +185,9 @@ PROPS["C20"] = {
         # the same name / enum value denotes the same algorithm outside the compression package
         {"name": "C20Wire", "pkg": "internal/tracer", "test": "TestVerifC20Wire", "kind": "rapid",
          "checks": {"quick": 4000, "thorough": 60000}, "shards": {"quick": 2, "thorough": 8}},
+        # compressed end-of-stream messages of 0 .. 1 MiB through the body tracer (C14 driver and oracle)
+        {"name": "C20WireEndStream", "pkg": "internal/tracer", "test": "TestVerifC20WireEndStream", "kind": "rapid",
+         "checks": {"quick": 400, "thorough": 6000}, "shards": {"quick": 2, "thorough": 8}},
         {"name": "C20RawPayload", "pkg": "internal", "test": "TestVerifC20RawPayload", "kind": "rapid",
          "checks": {"quick": 4000, "thorough": 60000}, "shards": {"quick": 2, "thorough": 8}},
     ],
@@ -223,6 +229,9 @@ PROPS["C16"] = {
     "units": [
         # refused stream, no retry: the trace is delivered by the retry timer; a later close must not complete it again
         {"name": "C16RetryTimer", "pkg": TR, "test": "TestVerifC16RetryTimer", "kind": "enum", "timeout": 300},
+        # the C15 conversations, judged only on "completed exactly once"
+        {"name": "C16H2Once", "pkg": TR, "test": "TestVerifC16H2Once", "kind": "rapid",
+         "checks": {"quick": 1500, "thorough": 20000}, "shards": {"quick": 3, "thorough": 8}},
         # the batch runner as user of the hand-off: a trace completed before the request is even reported as sent reaches the report
         {"name": "C16RunnerHandOff", "pkg": CC, "test": "TestVerifC16RunnerHandOff", "kind": "enum", "timeout": 300},
         {"name": "C16TracerEnum", "pkg": TR, "test": "TestVerifC16TracerEnum", "kind": "enum", "race": {"quick": False, "thorough": False},
@@ -580,4 +589,18 @@ _ADDED9 = {
     "C20": " ServerWire: with the runner's number for the encoding, the server's own compression check stays silent.",
 }
 for _pid, _txt in _ADDED9.items():
+    PROPS[_pid]["rule"] = PROPS[_pid]["rule"] + _txt
+_ADDED10 = {
+    "C03": " Echoed requests that differ only by a field the message type does not define.",
+    "C05": " ClientKinds: the TLS + client-certificate configuration ten times (map order of the server instances).",
+    "C08": " Run also with a gRPC config case and patterns over the (grpc server impl) names.",
+    "C09": " ClientResponseSize: answers of 1 MiB +-1, 16 MiB -1 / 0 / +1 through the runner's reader.",
+    "C11": " Pass-through stderr lines with percent signs.",
+    "C15": " Exchange: 25 kB request header lists; GOAWAY preceded by the announcing one.",
+    "C16": " H2Once: the C15 conversations judged on 'completed exactly once'.",
+    "C17": " RawRequest paths with dot segments, double and trailing slashes.",
+    "C19": " LimitServer also as a Connect GET.",
+    "C20": " WireEndStream: compressed end-of-stream messages of 0 .. 1 MiB through the body tracer (C14 driver).",
+}
+for _pid, _txt in _ADDED10.items():
     PROPS[_pid]["rule"] = PROPS[_pid]["rule"] + _txt
